@@ -11,13 +11,16 @@ RULE = ("seeded federated configurations (gvh/fedlab: supergraph of 3-10 object 
         "@shareable, shared value types, subgraph-local types, interfaces declaring @requires fields and lists of "
         "entities, second-key-only subgraphs, and -- in half of the medium / full configurations, knob 'covariant' -- "
         "interfaces with object / list fields whose type is again an interface or union, narrowed covariantly by some "
-        "implementers, two levels deep; composition contract in harness/fedlab/CONTRACT.md), a key-consistent data "
+        "implementers, two levels deep, and (knob 'scopedhops', likewise) every interface with an entity hop whose entity "
+        "has a field in another subgraph, lists holding every implementer; composition contract in harness/fedlab/CONTRACT.md), a key-consistent data "
         "universe per configuration (nullable positions sometimes null or failing, entity lists with repeats such as "
         "a,a,b,c,b and nulls in the middle), and 5 "
         "valid-by-construction operations per configuration (nesting across subgraph boundaries, aliases, named and "
         "inline fragments on abstract types, __typename, variables and literals, @skip/@include; under knob 'covariant' "
         "one inner response key selected bare, under an outer `... on Impl` only, under an inner `... on Member` only, "
-        "under both, below lists and through named fragments); a third of the "
+        "under both, below lists and through named fragments; under knob 'scopedhops' the same entity hop of an "
+        "interface, with equal or different nested selections, bare and / or under one or two implementers and a fragment "
+        "on the interface itself); a third of the "
         "configurations use a minimal feature set, a third a medium one, a third everything. Each (configuration, "
         "universe, operation) goes through the real ExecutionEngine.Execute whose subgraph HTTP transport is answered by "
         "the Coq-extracted reference executor in subgraph mode; the reference result is the same executor in monolithic "
@@ -98,7 +101,8 @@ def distribution(cases):
          "provides_used": 0, "ops_with_variables": 0, "ops_with_fragments": 0, "ops_with_directives": 0,
          "ops_with_aliases": 0, "requires_field_selected_on_interface": 0, "object_list_selected_on_interface": 0,
          "configs_with_knob_covariant": 0, "abstract_field_under_abstract_parent": 0, "with_covariant_narrowing": 0,
-         "same_inner_key_under_several_condition_combinations": 0,
+         "same_inner_key_under_several_condition_combinations": 0, "configs_with_knob_scopedhops": 0,
+         "interface_entity_hop_under_several_scopes": 0,
          "engine_panics": 0, "gateway_reported_errors": 0, "member_order_differs": 0, "knob_tiers": {}}
     for c in cases:
         for name, rx in (("subgraphs", r"\(subgraphs (\d+)\)"), ("fetches_per_plan", r"\(fetches (\d+)\)"),
@@ -111,7 +115,8 @@ def distribution(cases):
                           ("ops_with_aliases", "aliases"), ("requires_field_selected_on_interface", "ifacerequires"),
                           ("object_list_selected_on_interface", "ifaceobjlist"),
                           ("abstract_field_under_abstract_parent", "covfield"), ("with_covariant_narrowing", "covnarrowed"),
-                          ("same_inner_key_under_several_condition_combinations", "covsamekey")):
+                          ("same_inner_key_under_several_condition_combinations", "covsamekey"),
+                          ("interface_entity_hop_under_several_scopes", "scopedhop")):
             if "(%s t)" % tag in c:
                 d[name] += 1
         if "(gwerrors t)" in c:
@@ -125,7 +130,9 @@ def distribution(cases):
         if m:
             if "covariant" in m.group(1).split(","):
                 d["configs_with_knob_covariant"] += 1
-            n = len([k for k in m.group(1).split(",") if k != "covariant"])
+            if "scopedhops" in m.group(1).split(","):
+                d["configs_with_knob_scopedhops"] += 1
+            n = len([k for k in m.group(1).split(",") if k not in ("covariant", "scopedhops")])
             tier = "minimal" if n <= 6 else ("medium" if n <= 26 else "full")
             d["knob_tiers"][tier] = d["knob_tiers"].get(tier, 0) + 1
     for k in ("subgraphs", "fetches_per_plan", "entity_fetches"):
